@@ -64,7 +64,7 @@ extern ssize_t mpt_stream_push(MPT_STRUCT(stream) *stream, size_t len, const voi
 			}
 		}
 		/* pushed some data */
-		if (post >= 0) {
+		if (post > 0) {
 			stream->_info._fd |= MPT_STREAMFLAG(MesgActive);
 			total += post;
 			/* push operation finished */
@@ -74,8 +74,8 @@ extern ssize_t mpt_stream_push(MPT_STRUCT(stream) *stream, size_t len, const voi
 			src = ((uint8_t *) src) + post;
 			continue;
 		}
-		/* incompatible error state */
-		if (post != MPT_ERROR(MissingBuffer)) {
+		/* incompatible error state, no progress requires more space */
+		if (post && post != MPT_ERROR(MissingBuffer)) {
 			return total ? total : post;
 		}
 		/* queue not resizable */
